@@ -97,6 +97,10 @@ def gen_cases(ctx) -> List[Dict[str, Any]]:
         for e in ("cancel", "fail_after"):
             for ca in ((0.005, 0.02, 0.04, 0.07) if ctx.tier == "quick" else (0.002, 0.005, 0.01, 0.02, 0.03, 0.04, 0.05, 0.06, 0.07, 0.1)):
                 cases.append({"behaviour": b, "exit": e, "moment": "before_first", "cancel_after": ca})
+    # ... and inside the spawn itself (sub-millisecond to a few milliseconds after the entry began)
+    for e in ("cancel", "fail_after"):
+        for k in (range(0, 40, 3) if ctx.tier == "quick" else range(0, 60)):
+            cases.append({"behaviour": "well_behaved", "exit": e, "moment": "before_first", "cancel_after": round(0.0001 * k, 5)})
     # the same StdioClient object entered again after earlier uses
     for b in (("well_behaved", "ignore_sigterm") if ctx.tier == "quick" else ("well_behaved", "ignore_sigterm", "never_read", "flood", "exit_at:2")):
         for e in exits:
@@ -174,6 +178,10 @@ def judge(ctx, case: Dict[str, Any], o: Dict[str, Any], remeasure) -> None:
                 # gone 0.3 s later only because the event loop kept running and its child watcher reaped it
                 ctx.violation("child_unreaped_when_context_left", f"child pid {pid} was in state {st!r} at the moment the "
                               f"context was left (only reaped later by the loop's child watcher)", case, o)
+        for pid, st in o.get("unknown_children_at_exit") or []:
+            # a child the client spawned although the spawn never "returned" (cancelled inside it)
+            ctx.violation("child_unreaped_when_context_left", f"a child process (pid {pid}, state {st!r}) spawned during a cancelled "
+                          f"entry exists at the moment the context is left; descriptors open then: {o.get('fd_new_at_exit')}", case, o)
         if not o.get("pids") and not early_cancel:
             ctx.violation("no_child_spawned", "no process was spawned", case)
     if case.get("prior_uses"):
